@@ -12,6 +12,14 @@ import (
 
 func (u *Unit) loopContract(fr *Frame, b *ssa.BasicBlock) *LoopContract {
 	if fr.ct == nil {
+		// a loop of an inlined helper that the unit's contract annotates (extracted loop)
+		if u.ct != nil && u.specMode == 0 {
+			for _, lc := range u.ct.Loops {
+				if lc.floating && lc.header == b {
+					return lc
+				}
+			}
+		}
 		return nil
 	}
 	for _, lc := range fr.ct.Loops {
